@@ -5,7 +5,7 @@
 (* spelling variant of Grammar.tla. One JSON line per sentence: the text, the AST it     *)
 (* denotes (appendix C format), and flags for the comparison. Single-field corruptions   *)
 (* and the documented unsupported constructs are listed with the outcome "reject".       *)
-EXTENDS Grammar, Json, IOUtils, FiniteSets, SequencesExt
+EXTENDS Grammar, Display, Json, IOUtils, FiniteSets, SequencesExt
 
 AllT == <<TRUE, TRUE, TRUE, TRUE, TRUE>>
 NoneT == <<FALSE, FALSE, FALSE, FALSE, FALSE>>
@@ -130,6 +130,7 @@ Seqs3 == {<<a, [b EXCEPT !.op = op1], [c EXCEPT !.op = op2]>> :
 CommentOnly(w) == ~w.always /\ w.year = <<>> /\ w.monthday = <<>> /\ w.week = <<>> /\ w.weekday = <<>> /\ ~w.written_time
                   /\ w.kindword = "" /\ w.comment # ""
 Case(ws, v) == [text |-> ShowExpr(ws, v), ast |-> DenExpr(ws), expect |-> "accept",
+                display |-> DisplayExpr(DenExpr(ws)),      \* what the library's printer must give for this AST (Display.tla)
                 comment_only |-> [i \in DOMAIN ws |-> CommentOnly(ws[i])]]
 
 SmallVariants == {Canonical, [Canonical EXCEPT !.semi = ";"], [Canonical EXCEPT !.closed = "off"]}
